@@ -1,18 +1,21 @@
-(* Properties/C02.v — statements only. An SCT is returned only for an entry already in the tree.
-   Proved for ALL event lists (submissions new/duplicate/concurrent with sequencing, fault
-   placements, crash points, cache loss, restarts, any number of instances, tampering of object
-   storage): every acknowledgement (index, timestamp) — from a sequencing round or from the
-   dedup cache — names an index that, in every committed checkpoint large enough to contain it
-   (hence in every later one, by C01), holds an entry with the submitted entry's dedup identity
-   (type, issuer key hash, certificate/TBS), exactly that timestamp and that leaf index; and
-   acknowledgements are never retracted by later events (crashes included).
-   Partial: "the checkpoint READABLE FROM OBJECT STORAGE at that moment covers the index" is not a
-   theorem here: with two live instances it is false of the code (known finding C06); for one live
-   instance it is checked on every acknowledgement by the harness monitor C02.ack, and the SCT
-   signature check by ct-go is part of the C09 harness. *)
-From SL Require Import Ctlog.Model Ctlog.Spec Ctlog.Inv2 Ctlog.Theorems2 Ctlog.Example.
+(* Properties/C02.v — statements only. An SCT is returned only for an entry already in the published tree.
+   (1) For ALL event lists (submissions new/duplicate/concurrent with sequencing, every fault
+   placement, crash points, cache loss/take-over, any number of instances, tampering): every
+   acknowledgement (index, timestamp) — from a sequencing round or from the dedup cache — names an
+   index that, in every committed checkpoint large enough to contain it (hence in every later one,
+   C01), holds an entry with the submitted entry's dedup identity, exactly that timestamp and that
+   index; acknowledgements are never retracted by later events (crashes included).
+   (2) For C02's own quantifier — one live instance at a time (crashes, restarts) and no tampering:
+   the checkpoint READABLE FROM OBJECT STORAGE at the moment of the acknowledgement (recorded in the
+   ack as a_pub) already covers that index, is a committed checkpoint, and the leaf it commits to at
+   that index is the acknowledged entry (C02_acks_covered_by_published, C02_acks_covered_leaf).
+   (3) With two live instances (2) is false of the code — the known finding under C06 —
+   C02_acks_covered_two_live_instances_refuted.
+   The SCT signature check by an independent RFC 6962 implementation (ct-go) is part of the C09
+   harness (mon_sct); in the model signatures are symbolic. *)
+From SL Require Import Ctlog.Model Ctlog.Spec Ctlog.Inv2 Ctlog.Theorems2 Ctlog.Solo Ctlog.Theorems3 Ctlog.Theorems4 Ctlog.Example.
 
-Theorem C02_ack_names_committed_leaf_partial : forall (sha : bytes -> bytes) evs a idx ts,
+Theorem C02_ack_names_committed_leaf : forall (sha : bytes -> bytes) evs a idx ts,
   let w := run sha evs init in
   In a (w_acks w) -> a_res a = Some (idx, ts) ->
   (exists c ls, In (c, ls) (w_lockhist w) /\ (N.to_nat idx < length ls)%nat) /\
@@ -20,12 +23,43 @@ Theorem C02_ack_names_committed_leaf_partial : forall (sha : bytes -> bytes) evs
     exists sl, nth_error ls (N.to_nat idx) = Some sl /\
       leaf_ckey sha (sl_leaf sl) = ckey sha (a_entry a) /\ l_ts (sl_leaf sl) = ts /\ l_idx (sl_leaf sl) = Z.of_N idx.
 Proof. exact ack_names_committed_leaf. Qed.
-Print Assumptions C02_ack_names_committed_leaf_partial.
+Print Assumptions C02_ack_names_committed_leaf.
 
 Theorem C02_acks_never_retracted : forall (sha : bytes -> bytes) evs more a,
   In a (w_acks (run sha evs init)) -> In a (w_acks (run sha (evs ++ more) init)).
 Proof. exact acks_never_retracted. Qed.
 Print Assumptions C02_acks_never_retracted.
+
+Theorem C02_acks_covered_by_published : forall (sha : bytes -> bytes) (evs : list ev),
+  no_tamper evs -> solo_run sha evs init ->
+  let w := run sha evs init in
+  forall a idx ts, In a (w_acks w) -> a_res a = Some (idx, ts) ->
+    exists P, a_pub a = Some P /\ (idx < cp_size P)%N /\ exists ls, In (P, ls) (w_lockhist w).
+Proof. exact acks_covered_by_published. Qed.
+Print Assumptions C02_acks_covered_by_published.
+
+Theorem C02_acks_covered_leaf : forall (sha : bytes -> bytes) (evs : list ev),
+  no_tamper evs -> solo_run sha evs init ->
+  let w := run sha evs init in
+  forall a idx ts, In a (w_acks w) -> a_res a = Some (idx, ts) ->
+    exists P ls sl, a_pub a = Some P /\ (idx < cp_size P)%N /\ In (P, ls) (w_lockhist w) /\
+      cp_size P = N.of_nat (length ls) /\ cp_root P = mroot sha (leaf_hashes sha ls) /\
+      nth_error ls (N.to_nat idx) = Some sl /\
+      leaf_ckey sha (sl_leaf sl) = ckey sha (a_entry a) /\ l_ts (sl_leaf sl) = ts /\ l_idx (sl_leaf sl) = Z.of_N idx.
+Proof. exact acks_covered_leaf. Qed.
+Print Assumptions C02_acks_covered_leaf.
+
+(* with two live instances the sentence is false of the code (known finding C06) *)
+Theorem C02_acks_covered_two_live_instances_refuted :
+  exists a idx ts P,
+    no_tamper history_rollback_resubmit /\
+    In a (w_acks (run toy_sha history_rollback_resubmit init)) /\ a_res a = Some (idx, ts) /\
+    a_pub a = Some P /\ (cp_size P <= idx)%N.
+Proof. exact acks_covered_two_live_instances_refuted. Qed.
+Print Assumptions C02_acks_covered_two_live_instances_refuted.
+
+Example C02_example_hypotheses : no_tamper history1 /\ solo_run toy_sha history1 init.
+Proof. split; [apply no_tamperb_ok; vm_compute; reflexivity|apply solo_run_b_sound; vm_compute; reflexivity]. Qed.
 
 (* non-vacuity: the example history acknowledges entry 0 at index 0 *)
 Example C02_example : exists a, In a (w_acks world1) /\ a_res a = Some (0%N, 20%Z).
